@@ -229,8 +229,8 @@ type WorldInfo struct {
 	W        World
 	Root     common.Hash
 	Accounts map[int]acctImage // canonical slim accounts by account key
-	Image [32]byte // digest of the canonical flat-state + trie-node key space
-	NKeys int      // number of entries in the canonical image
+	Image    [32]byte          // digest of the canonical flat-state + trie-node key space
+	NKeys    int               // number of entries in the canonical image
 }
 
 func NewRegistry(s Shape, cancun bool) *Registry {
@@ -406,6 +406,9 @@ func (e *Env) open(hints ...common.Hash) error {
 	e.SDB = state.NewDatabase(e.TDB, state.NewCodeDB(disk))
 	// locate the pathdb.Database behind the triedb wrapper
 	root, _ := e.diskRootFromKV()
+	if _, droot, _, diffs, ok := pathdb.VerifHistJournal(e.KV.Database); ok {
+		hints = append(append(hints, droot), diffs...) // layers restored from a stored journal
+	}
 	for _, h := range append(hints, root) {
 		if nr, err := e.TDB.NodeReader(h); err == nil {
 			e.PDB = pathdb.VerifHistDB(nr)
@@ -770,4 +773,3 @@ func ScratchDir(prefix string) string {
 	}
 	panic("harness: no scratch directory")
 }
-
